@@ -211,6 +211,9 @@ var harnessDirOf = map[string]string{"store": "store", "sasl": "sasl", "agent": 
 
 var buildMu sync.Mutex
 
+// pamsimBin is the compiled C simulator handed to the sasl harness (PAM clauses of C05 / C13).
+var pamsimBin string
+
 func buildHarness(verifDir, repo string, g *genResult, pkg string) (string, error) {
 	buildMu.Lock()
 	defer buildMu.Unlock()
@@ -303,7 +306,6 @@ func check(verifDir, repo, id, tier, replay string) int {
 		bin = bins[meta.Pkg]
 	}
 	pkgOf := func(k int) string { return pkgs[k%len(pkgs)] }
-	pamsimBin := ""
 	if meta.Pkg == "sasl" {
 		// C05 / C13 feed server replies and requests to the compiled PAM module
 		if b, err := buildPam(verifDir, repo); err == nil {
@@ -629,7 +631,7 @@ func runReplay(bin, scratch, id, rp string, known []string, meta propInfo) (*res
 	wd := filepath.Join(scratch, "wd-replay")
 	os.MkdirAll(wd, 0o755)
 	cmd := workerCmd(bin, meta, wd)
-	cmd.Env = append(baseEnv(), "VERIF_PROP="+id, "VERIF_REPLAY="+rp, "VERIF_OUT="+out, "VERIF_KNOWN="+strings.Join(known, ","), "GOMAXPROCS=2")
+	cmd.Env = append(baseEnv(), "VERIF_PROP="+id, "VERIF_REPLAY="+rp, "VERIF_OUT="+out, "VERIF_KNOWN="+strings.Join(known, ","), "GOMAXPROCS=2", "VERIF_PAMSIM="+pamsimBin)
 	if meta.Pkg == "pam" {
 		// the C simulator takes the tape through the environment
 		if rb, err := os.ReadFile(rp); err == nil {
